@@ -376,7 +376,7 @@ pub fn csres(r: &SRes) -> String {
         SRes::Text(t, back) => format!("(RText {} {})", cbytes(t), coption(back.as_ref(), cfilter)),
         SRes::Filter(f) => format!("(RFilter {})", coption(f.as_ref(), cfilter)),
         SRes::HeadItems(items, len) => format!("(RHeadItems {} {})", clist(items, |(t, a)| format!("({}, {})", t, n256(a))), len),
-        SRes::Panic => "RFail".into(),
+        SRes::Panic => "RPanic".into(),
         SRes::BadFingerprint => "RBadFingerprint".into(),
     }
 }
